@@ -33,6 +33,9 @@ def _h(*p):
     return int.from_bytes(hashlib.blake2b("/".join(map(str, p)).encode(), digest_size=8).digest(), "big")
 
 
+FIELDS_OF = {}        # tag -> the field values of the valid broadcast built for it in this case
+
+
 def tag_of(i):
     return f"{i + 1:06x}"
 
@@ -59,6 +62,7 @@ def build(i, d, caps):
     code = FAMILIES[d.get("family", 0) % len(FAMILIES)]
     base = refb.encode(valid_fields(code, tag, d.get("seed", 0)))
     if k == "valid":
+        FIELDS_OF[tag] = valid_fields(code, tag, d.get("seed", 0))
         return base, "valid", tag
     if k == "foreign":
         n = d.get("len", 50)
@@ -114,6 +118,9 @@ def build(i, d, caps):
             b[143:146] = b"\xff\xff\xff"                         # remote id is not UTF-8
         return bytes(b), "unspecified", tag
     raise KeyError(k)
+
+
+LAST_HISTORY = [None]
 
 
 class History:
@@ -202,6 +209,7 @@ class History:
         dead = sorted(set(dead) | set(getattr(self, "dead_before", [])))
         tags = [getattr(dev, "device_id", None) for dev in rig.callbacks]
         names = [getattr(dev, "name", None) for dev in rig.callbacks]
+        self.devices = list(rig.callbacks)
         return self.sent, tags, names, [rig.ports.index(p) for p in dead], list(rig.loop_errors), rig.invocations
 
     async def close(self):
@@ -210,7 +218,9 @@ class History:
 
 def run_case(case):
     import time_machine
+    FIELDS_OF.clear()
     h = History(case)
+    LAST_HISTORY[0] = h
     n = len(case["dgrams"])
     cut = case.get("new_loop_at")
     cut = None if cut is None else cut % (n + 1)
@@ -308,6 +318,15 @@ def body(rep, case, sub="histories"):
     for t, nm in zip(tags, names):
         if label_of.get(t) == "valid" and nm != f"dev-{t}":
             raise Violation("C07/wrong-device-decoded", case, f"dev-{t}", nm)
+    # "... with the decoded device": every field of what was delivered for a valid broadcast (C05's comparison)
+    from . import c05
+    for dev in getattr(LAST_HISTORY[0], "devices", []):
+        f = FIELDS_OF.get(getattr(dev, "device_id", None))
+        if f is not None and label_of.get(f["device_id"]) == "valid":
+            try:
+                c05.judge(f, dev, case)
+            except Violation as v:
+                raise Violation("C07/wrong-device-decoded/" + v.signature.split("/", 1)[1], case, v.expected, v.observed)
 
 
 # -- strategies ---------------------------------------------------------------------------------------
